@@ -285,8 +285,10 @@ def trieStep (st : TState) (line : String) : TState × String :=
     | some ms =>
       let id := st.pub.nextID
       let (t', ok) := addMatches st.pub.trie id ms
-      let pub' : PubState := { trie := t', nextID := id + 1, subs := (id, ms) :: st.pub.subs,
-                               okSubs := if ok then id :: st.pub.okSubs else st.pub.okSubs }
+      -- on an error newSubscriber undoes the registration (fix of finding F24)
+      let pub' : PubState :=
+        if ok then { trie := t', nextID := id + 1, subs := (id, ms) :: st.pub.subs, okSubs := id :: st.pub.okSubs }
+        else { st.pub with trie := delMatches t' id (okPrefix ms), nextID := id + 1 }
       ({ st with pub := pub' }, if ok then toString id else "err")
   | ["punsub", id] =>
     match natArg id with
@@ -430,9 +432,6 @@ def subscribeStep (st : SubState) (line : String) : SubState × String :=
         let p := (st.pub.deliver id s.queue.length).cancel id
         ({ st with pub := p }, kvListStr (p.deliveredTo id))
   | ["close"] =>
-    -- finding F24: a failed Subscribe leaves its subscriber registered; `cleanSubscribers` then
-    -- waits forever for a Subscribe loop that does not exist and `DB.Close` never returns
-    if st.pub.subs.any (fun s => !s.ok) then (st, "hang") else
     let ids := (st.pub.subs.filter (·.ok)).map (·.id)
     let p := ids.foldl (fun p id => p.close id) st.pub
     ({ st with pub := p }, joinWith "|" (ids.map (fun id => s!"{id}={kvListStr (p.deliveredTo id)}")))
